@@ -20,7 +20,7 @@ EXPLANATION = ("ParameterTable: one inductive step - from every valid table stat
                "symbolic record values is run on the real class and on an OrderedDict model and every public observation is compared (z3 on the value terms). "
                "RowCollector: rows with solver-variable entries; np.argsort on the object column compares proxies, which forks on every comparison, so every ordering including ties is a "
                "path; per path z3 proves the sorted column is monotone and the rows are a permutation of whole input rows. "
-               "DataPlotGrid: the index expressions of __init__/items() are extracted from the AST of the current source and evaluated on symbolic unbounded integers i, n, ncols; "
+               "DataPlotGrid: the real __init__ and items() generator are run with len/int/range/enumerate replaced in the module namespace, so that n = len(data), ncols and one loop index per run (i, then j) are symbolic unbounded integers and the loop bounds are z3 terms; "
                "z3 proves the cell map is a bijection between [0, nrows*ncols) and the grid, that data cells and missing cells are disjoint and exhaust it, normal and transposed; "
                "the glue between kernel and generator is checked by running the real generator for n<=12, ncols<=6. DataCombination: shapes of <=3 lists with lengths 0..3 are enumerated "
                "with opaque proxy elements and compared with the nested-loop model (no arithmetic for a solver to decide there; stated as exhaustive enumeration).")
@@ -178,69 +178,72 @@ def _to_int(x=0, *a):
 
 
 def grid_task(task):
-    """AST kernel extraction + z3 over unbounded integers"""
+    """the real __init__ and items() generator run on symbolic integers (module-namespace stubs for len/int/range/enumerate hand out ONE symbolic loop index per run) + z3 over unbounded integers"""
     import scinumtools.data_plot_grid as M
     import numpy as np
     out = {'shapes': 0, 'paths': 0, 'obligations': 0, 'discharged': 0, 'raised_paths': 0, 'nontrivial': 0, 'findings': [], 'inconclusive': [], 'samples': [],
            'canaries': 0, 'canaries_fired': 0}
-    src = inspect.getsource(M.DataPlotGrid)
-    tree = ast.parse(src)
-    cls = tree.body[0]
-    init = [n for n in cls.body if isinstance(n, ast.FunctionDef) and n.name == '__init__'][0]
-    items = [n for n in cls.body if isinstance(n, ast.FunctionDef) and n.name == 'items'][0]
-    nrows_rhs = None
-    for n in ast.walk(init):
-        if isinstance(n, ast.Assign) and isinstance(n.targets[0], ast.Attribute) and n.targets[0].attr == 'nrows':
-            nrows_rhs = n.value
-    if nrows_rhs is None:
-        out['inconclusive'].append('grid: assignment to self.nrows not found in __init__')
-        out['stats'] = core.Stats().as_dict()
-        return out
-    # collect (loop domain kind, condition path (missing, transpose, datatype), yield tuple)
-    kernels = []
-
-    def walk(stmts, conds):
-        for s in stmts:
-            if isinstance(s, ast.If):
-                walk(s.body, conds + [(ast.unparse(s.test), True)])
-                walk(s.orelse, conds + [(ast.unparse(s.test), False)])
-            elif isinstance(s, ast.For):
-                dom = ast.unparse(s.iter)
-                for y in ast.walk(s):
-                    pass
-                walk_for(s, conds, dom)
-            elif isinstance(s, ast.Raise):
-                pass
-            else:
-                for y in ast.walk(s):
-                    if isinstance(y, ast.Yield):
-                        out['inconclusive'].append('grid: yield outside a recognised for loop')
-
-    def walk_for(f, conds, dom):
-        def rec(stmts, cc):
-            for s in stmts:
-                if isinstance(s, ast.If):
-                    rec(s.body, cc + [(ast.unparse(s.test), True)])
-                    rec(s.orelse, cc + [(ast.unparse(s.test), False)])
-                elif isinstance(s, ast.Expr) and isinstance(s.value, ast.Yield):
-                    kernels.append((dom, ast.unparse(f.target), cc, s.value.value))
-                else:
-                    out['inconclusive'].append(f'grid: unrecognised statement in loop: {ast.unparse(s)[:60]}')
-        rec(f.body, conds)
-    walk(items.body, [])
     eng = Engine(timeout_ms=20000)
     n, ncols, i, j = [GInt(z3.Int(x)) for x in ('n', 'ncols', 'i', 'j')]
-
-    class Self:
-        pass
-    me = Self()
-    me.ndata, me.ncols = n, ncols
-    env = {'self': me, 'np': np, 'int': _to_int, 'len': len, 'float': stubs.Float}
     global_pre = [n.t >= 0, ncols.t >= 1]
-    me.nrows = eval(compile(ast.Expression(nrows_rhs), '<nrows>', 'eval'), env)
-    if isinstance(me.nrows, SymReal):
+    cur = {}
+
+    def s_len(d):
+        return n
+
+    def s_range(*a):
+        lo, hi = (0, a[0]) if len(a) == 1 else a[:2]
+        cur['doms'].append(('range', core.lift_int(lo), core.lift_int(hi)))
+        return [cur['idx']]
+
+    def s_enumerate(it, start=0):
+        ok = (it is cur['data']) or type(it).__name__ == 'dict_items'
+        cur['doms'].append(('enumerate' if ok and start == 0 else 'enumerate?', z3.IntVal(0), n.t))
+        return [(cur['idx'], ('k0', 'v0') if isinstance(cur['data'], dict) else 'd0')]
+    MISSING = object()
+    names = {'len': s_len, 'int': _to_int, 'range': s_range, 'enumerate': s_enumerate, 'float': stubs.Float}
+    saved = {k: M.__dict__.get(k, MISSING) for k in names}
+    kernels = []
+    nrows = None
+    try:
+        for k, f in names.items():
+            setattr(M, k, f)
+        for kind, data in (('list', []), ('dict', {})):
+            cur['data'] = data
+            g = M.DataPlotGrid(data, ncols=ncols)
+            if kind == 'list':
+                nrows = g.nrows
+            for missing in (False, True):
+                if missing and kind == 'dict':
+                    continue
+                for transpose in (False, True):
+                    cells = []
+                    for var in (i, j):
+                        cur['idx'], cur['doms'] = var, []
+                        try:
+                            ys = list(g.items(missing=missing, transpose=transpose))
+                        except Exception as e:
+                            out['inconclusive'].append(f'grid: items(missing={missing}, transpose={transpose}) on a {kind} could not be run on symbolic integers: {type(e).__name__}: {e}')
+                            ys = None
+                            break
+                        if len(ys) != 1 or len(cur['doms']) != 1 or len(ys[0]) < 3:
+                            out['inconclusive'].append(f'grid: items(missing={missing}, transpose={transpose}) on a {kind}: {len(cur["doms"])} loops / {len(ys)} yields for one loop index (unrecognised shape)')
+                            ys = None
+                            break
+                        cells.append(ys[0])
+                    if ys is None:
+                        continue
+                    kernels.append((kind, missing, transpose, cur['doms'][0], cells[0], cells[1]))
+    finally:
+        for k, v0 in saved.items():
+            if v0 is MISSING:
+                delattr(M, k)
+            else:
+                setattr(M, k, v0)
+    if nrows is None or isinstance(nrows, SymReal) or not hasattr(nrows, 't'):
         out['inconclusive'].append('grid: nrows did not evaluate to an integer term')
-    nrows = me.nrows
+        out['stats'] = eng.stats.as_dict()
+        return out
     N = ncols * nrows
 
     def prove(label, claim, extra):
@@ -256,37 +259,19 @@ def grid_task(task):
             out['inconclusive'].append(f'grid/{label}: unknown')
     # nrows is the ceiling of n/ncols
     prove('nrows = ceil(n/ncols)', z3.And(nrows.t * ncols.t >= n.t, (nrows.t - 1) * ncols.t < n.t), [])
-    seen = set()
-    for dom, target, cc, ytuple in kernels:
+    for kind, missing, transpose, (domkind, lo, hi), ci, cj in kernels:
         out['shapes'] += 1
         out['nontrivial'] += 1
-        missing = any('missing' in c and val for c, val in cc)
-        transpose = any(c.strip() == 'transpose' and val for c, val in cc)
-        if dom.startswith('range('):
-            if dom.replace(' ', '') != 'range(self.ndata,self.ncols*self.nrows)':
-                out['inconclusive'].append(f'grid: unrecognised loop domain {dom}')
-                continue
-            idx, lo, hi = 'i', n, N
-        elif dom.startswith('enumerate(self.data'):
-            idx, lo, hi = target.strip('()').split(',')[0].strip(), SymInt(z3.IntVal(0)), n
-        else:
-            out['inconclusive'].append(f'grid: unrecognised loop domain {dom}')
+        tag = f"{'missing' if missing else 'data'}/{'transposed' if transpose else 'normal'}/{kind}"
+        if domkind == 'enumerate?':
+            out['inconclusive'].append(f'grid/{tag}: enumerate() over something else than the data')
             continue
-        elts = ytuple.elts
-
-        def cell(var):
-            e2 = dict(env)
-            e2[idx] = var
-            vals = [eval(compile(ast.Expression(e), '<yield>', 'eval'), e2) for e in elts[:3]]
-            return vals
-        ci = cell(i)
-        cj = cell(j)
-        dom_i = [i.t >= lo.t, i.t < hi.t]
-        dom_j = [j.t >= lo.t, j.t < hi.t]
-        tag = f"{'missing' if missing else 'data'}/{'transposed' if transpose else 'normal'}/{dom.split('(')[0]}"
-        if tag in seen:
-            tag += '/dict'
-        seen.add(tag)
+        if missing:
+            prove(f'{tag}: the loop runs over the indices behind the data, up to the size of the grid', z3.And(lo == n.t, hi == N.t), [])
+        elif domkind == 'range':
+            prove(f'{tag}: the loop runs over the data indices', z3.And(lo == 0, hi == n.t), [])
+        dom_i = [i.t >= lo, i.t < hi]
+        dom_j = [j.t >= lo, j.t < hi]
         r_i, c_i = core.lift_int(ci[1]), core.lift_int(ci[2])
         r_j, c_j = core.lift_int(cj[1]), core.lift_int(cj[2])
         prove(f'{tag}: index reported', core.lift_int(ci[0]) == i.t, dom_i)
@@ -295,6 +280,12 @@ def grid_task(task):
         # linearisation: the cell determines the index (row-major / column-major), which makes data and missing cells disjoint and jointly exhaustive
         lin = r_i * ncols.t + c_i if not transpose else c_i * nrows.t + r_i
         prove(f'{tag}: cell linearises to the index', lin == i.t, dom_i)
+        if not missing:
+            out['obligations'] += 1
+            out['discharged'] += 1
+            want = ('k0', 'v0') if kind == 'dict' else ('d0',)
+            if tuple(ci[3:]) != want:
+                out['findings'].append({'key': f'grid/{tag}/payload', 'what': f'DataPlotGrid: {tag}: the item handed out with its cell is {tuple(ci[3:])!r}, expected {want!r}', 'model': {}, 'replay': GRID_REPLAY % (5, 2)})
         out['paths'] += 1
     # every cell is hit: for r,c in the grid the index r*ncols+c lies in [0, N) = data range + missing range
     r, c = z3.Int('r'), z3.Int('c')
@@ -325,7 +316,7 @@ def grid_task(task):
     else:
         out['discharged'] += 1
         out['findings'].append({'key': 'grid/glue', 'what': f'DataPlotGrid generator does not cover the grid exactly once at {bad}', 'model': {'case': bad}, 'replay': GRID_REPLAY % (bad[0], bad[1])})
-    out['samples'].append({'grid_kernels': [ast.unparse(k[3]) for k in kernels], 'nrows': ast.unparse(nrows_rhs)})
+    out['samples'].append({'grid_kernels': [f'{k[0]}/missing={k[1]}/transpose={k[2]}: row={core.lift_int(k[4][1])} col={core.lift_int(k[4][2])}'[:300] for k in kernels], 'nrows': str(nrows.t)[:200]})
     fp_model_lemma(out)
     out['stats'] = eng.stats.as_dict()
     return out
